@@ -344,11 +344,117 @@ fn replay_validate_deletions_remote(sc: &Value) -> Value {
     json!({"status": "done", "result": out})
 }
 
+fn replay_c12_mutation(sc: &Value) -> Value {
+    let a = replay_entity_mutation(sc);
+    let b = replay_validate_node(sc);
+    json!({"status": "done", "local": a["result"], "remote": b["result"]})
+}
+
+fn replay_c12_deletion(sc: &Value) -> Value {
+    let mut keys = Keys::new();
+    let ra = match room_auth(sc, &mut keys) {
+        Ok(r) => r,
+        Err(e) => return json!({"status": "precondition", "detail": e}),
+    };
+    let caller_vk = keys.vk(sc["caller"].as_str().unwrap());
+    let author = keys.vk(sc["author"].as_str().unwrap());
+    let room = uid(sc["room"].as_str().unwrap());
+    let id = uid(sc["id"].as_str().unwrap());
+    let name = s(&sc["name"]);
+    let date = crate::date_utils::now();
+    let mut dq = DeletionQuery {
+        nodes: vec![],
+        node_log: vec![],
+        updated_nodes: vec![],
+        edges: vec![],
+        edge_log: vec![],
+    };
+    let is_node = sc["which"].as_str().unwrap() == "node";
+    if is_node {
+        dq.nodes.push(NodeDelete {
+            node: Node {
+                id,
+                room_id: Some(room),
+                cdate: 0,
+                mdate: 0,
+                _entity: "9.9".to_string(),
+                _json: Some("{}".to_string()),
+                _binary: None,
+                verifying_key: author.clone(),
+                _signature: vec![],
+                _local_id: None,
+            },
+            name: name.clone(),
+            date,
+        });
+    } else {
+        dq.edges.push(EdgeDelete {
+            edge: Edge {
+                src: id,
+                src_entity: "9.9".to_string(),
+                label: "l".to_string(),
+                dest: uid("dest"),
+                cdate: 0,
+                verifying_key: author.clone(),
+                signature: vec![],
+            },
+            src_name: name.clone(),
+            room_id: Some(room),
+            date,
+        });
+    }
+    let local = ra.validate_deletion(&mut dq);
+    let local_ok = local.is_ok();
+    let remote_ok;
+    if is_node {
+        let mut entry = if local_ok && dq.node_log.len() == 1 {
+            dq.node_log.remove(0)
+        } else {
+            NodeDeletionEntry {
+                room_id: room,
+                id,
+                entity: "9.9".to_string(),
+                mdate: 0,
+                deletion_date: date,
+                verifying_key: caller_vk.clone(),
+                signature: vec![],
+                entity_name: None,
+            }
+        };
+        entry.entity_name = Some(name.clone());
+        let mut m = HashMap::new();
+        m.insert(entry.id, (entry, Some(author.clone())));
+        remote_ok = ra.validate_node_deletions(m).len() == 1;
+    } else {
+        let mut entry = if local_ok && dq.edge_log.len() == 1 {
+            dq.edge_log.remove(0)
+        } else {
+            EdgeDeletionEntry {
+                room_id: room,
+                src: id,
+                src_entity: "9.9".to_string(),
+                dest: uid("dest"),
+                label: "l".to_string(),
+                cdate: 0,
+                deletion_date: date,
+                verifying_key: caller_vk.clone(),
+                signature: vec![],
+                entity_name: None,
+            }
+        };
+        entry.entity_name = Some(name.clone());
+        remote_ok = ra.validate_edge_deletions(vec![(entry, Some(author.clone()))]).len() == 1;
+    }
+    json!({"status": "done", "local": if local_ok {"Ok"} else {"Err"}, "remote": remote_ok})
+}
+
 pub fn dispatch(sc: &Value) -> Value {
     match sc["kind"].as_str().unwrap_or("") {
         "entity_mutation" => replay_entity_mutation(sc),
         "deletion" => replay_deletion(sc),
         "validate_node" => replay_validate_node(sc),
+        "c12_mutation" => replay_c12_mutation(sc),
+        "c12_deletion" => replay_c12_deletion(sc),
         "validate_deletions_remote" => replay_validate_deletions_remote(sc),
         other => json!({"status": "unknown-kind", "kind": other}),
     }
